@@ -251,8 +251,11 @@ Definition ante (s : state) (o : op) : outcome state :=
   end.
 
 (* ---------------------------------------------------------------- handlers *)
+(* TargetAddress: "" = the signer; a code 100 + i is another spelling (upper case) of the bech32 string of
+   account i: a different string that decodes to the same address *)
 Definition resolve (sg : Z) (k : kp) : outcome Z :=
-  if k_tgt k =? -1 then Ok sg else if k_tgt k <? 0 then Err "cannot convert target" else Ok (k_tgt k).
+  if k_tgt k =? -1 then Ok sg else if k_tgt k <? 0 then Err "cannot convert target"
+  else if 100 <=? k_tgt k then Ok (k_tgt k - 100) else Ok (k_tgt k).
 
 (* SetCustodyRecordKey: dereferences the settings record of the (target) account *)
 Definition set_key (s : state) (x : Z) (k : kp) : outcome state :=
